@@ -409,6 +409,37 @@ def handle (j : Json) : Json :=
     Json.mkObj [("status", "ok"), ("C0", toJson (matToBits C0)), ("target", toJson (matToBits F.target)),
       ("filter", toJson (matToBits F.filter)), ("comps", toJson (matToBits F.comps)), ("scores", toJson (matToBits F.scores)),
       ("norms", toJson (vecToBits F.norms)), ("decorr", toJson (vecToBits F.decorr))]
+  | "mcca" =>
+    -- multi.CCA: views side by side. Xpc (n×P) = what enters `_fit_algorithm` (PC scores with the PCA option), Xphys (n×Q) = stored
+    -- input_data, B (Q×P) the way back from PC space; oracles: eigen-pairs E (P×k), lam0 as `eigh` returned them, shift = lmin − eps
+    let n := getNat j "n"; let P := getNat j "P"; let Q := getNat j "Q"; let k := getNat j "k"; let nv := getNat j "nv"; let m := getNat j "m"
+    let bP := getNatArr j "blkP"; let bQ := getNatArr j "blkQ"
+    let blkP : Fin P → Nat := fun a => bP[a.val]!
+    let blkQ : Fin Q → Nat := fun a => bQ[a.val]!
+    let Xpc := matOfBits n P (getStrArr j "Xpc"); let Xphys := matOfBits n Q (getStrArr j "Xphys"); let B := matOfBits Q P (getStrArr j "B")
+    let cA := (getStrArr j "c").map bitsToFloat
+    let c : Nat → Float := fun v => cA[v]!
+    let shift := bitsToFloat (getStr j "shift")
+    let evA := (getStrArr j "expvar").map bitsToFloat
+    let E := matOfBits P k (getStrArr j "E"); let l0 := (getStrArr j "lam0").map bitsToFloat
+    let lam0 : Fin k → Float := fun i => l0[i.val]!
+    let Xnew := matOfBits m Q (getStrArr j "Xnew")
+    let C : Mat P P Float := mccaC (ρ := Float) Xpc blkP nv
+    let D : Mat P P Float := if getBool j "pca" then mccaDpca (ρ := Float) blkP nv c (fun a => evA[a.val]!) shift
+                             else mccaD (ρ := Float) Xpc blkP nv c shift
+    -- `eigvals.argsort()[::-1]`: ascending stable order, reversed
+    let asc : List (Fin k) := (List.finRange k).mergeSort (fun a b => lam0 a ≤ lam0 b)
+    let idx := asc.reverse
+    let perm : Fin k → Fin k := fun jj => idx.getD jj.val jj
+    let F : MccaFit n Q k Float Float := mccaFit Xphys blkQ B E lam0 perm
+    let vs := List.range nv
+    Json.mkObj [("status", "ok"), ("C", toJson (matToBits C)), ("D", toJson (matToBits D)), ("lam", toJson (vecToBits F.lam)),
+      ("weights", toJson (matToBits F.weights)),
+      ("loadings", toJson (vs.map fun v => matToBits (F.loadings v))),
+      ("variates", toJson (vs.map fun v => matToBits (F.variates v))),
+      ("canload", toJson (vs.map fun v => matToBits (F.canLoad v))),
+      ("expvar", toJson (vs.map fun v => vecToBits (F.expvar v))),
+      ("transform", toJson (vs.map fun v => matToBits (mccaTransform F blkQ Xnew v)))]
   | "eeof" =>
     let n := getNat j "n"; let p := getNat j "p"; let tau := getNat j "tau"; let emb := getNat j "embedding"
     let X := matOfBits n p (getStrArr j "X")
